@@ -36,16 +36,35 @@ ASSUMPTIONS = [
     "bit-identical comparison of values (NaN == NaN)",
 ]
 
-STATEFUL_EXTRA = [{"k": "st", "fn": "scale", "col": "z"}, {"k": "st", "fn": "center", "col": "z"}, {"k": "bsK", "col": "z"}]
+STATEFUL_EXTRA = [
+    {"k": "st", "fn": "scale", "col": "z"}, {"k": "st", "fn": "center", "col": "z"}, {"k": "bsK", "col": "z"},
+    # a quoted non-identifier column inside stateful transforms (its sanitised alias keys the transform state)
+    {"k": "st", "fn": "scale", "col": F.ODD_NUM}, {"k": "st", "fn": "center", "col": F.ODD_NUM},
+    # a float array the caller supplies through the context
+    {"k": "ctx", "src": "lag(ZV)"}, {"k": "ctx", "src": "np.exp(ZV / 10)"}, {"k": "ctx", "src": "lag(ZV, -1)"},
+]
 KNOTS = [0.75, 2.5]
-
-
-def ctx():
-    """The caller's context: holds a mutable list that formulas may reference (bs(z, knots=K))."""
-    return {"K": CONTEXT_K}
-
-
 CONTEXT_K = list(KNOTS)
+CONTEXT_Z = {}
+
+
+def zv(n):
+    return np.arange(n, dtype=float) * 0.5 + 1.0
+
+
+def ctx(n=None):
+    """The caller's context: a mutable list (bs(z, knots=K)) and a float array of the frame's length (lag(ZV))."""
+    c = {"K": CONTEXT_K}
+    if n is not None:
+        c["ZV"] = CONTEXT_Z.setdefault(n, zv(n))
+    return c
+
+
+def fresh_ctx(n=None):
+    c = {"K": list(KNOTS)}
+    if n is not None:
+        c["ZV"] = zv(n)
+    return c
 
 
 def digest(mm):
@@ -93,12 +112,19 @@ def check_history(case) -> Outcome:
         return dict(output=["pandas", "numpy", "sparse"][o % 3], ensure_full_rank=bool((o // 3) % 2), na_action=["drop", "drop", "ignore"][(o // 6) % 3])
 
     CONTEXT_K[:] = list(KNOTS)
+    CONTEXT_Z.clear()
+    nrows = [len(df) for df in frames]
 
     def invariants(step):
         if CONTEXT_K != KNOTS:
             out.fail("context-object-mutated", f"after {step}: the caller's list K is now {CONTEXT_K}", op=step[0])
             CONTEXT_K[:] = list(KNOTS)
             return False
+        for n_, arr in CONTEXT_Z.items():
+            if not np.array_equal(arr, zv(n_)):
+                out.fail("context-object-mutated", f"after {step}: the caller's array ZV (n={n_}) is now {arr.tolist()}", op=step[0])
+                CONTEXT_Z.clear()
+                return False
         for i, (df, pr) in enumerate(zip(frames, pristine)):
             if not frames_equal(df, pr):
                 out.fail("input-data-mutated", f"after {step}: frame {i} changed", op=step[0])
@@ -130,17 +156,19 @@ def check_history(case) -> Outcome:
         op = step[0]
         if op == "build":
             fi, di, o = step[1] % len(formulas), step[2] % len(frames), opts_of(step[3])
-            do_call(step, lambda fi=fi, di=di, o=o: formulas[fi].get_model_matrix(frames[di], context=ctx(), **o), lambda fi=fi, di=di, o=o: Formula(fstrs[fi]).get_model_matrix(pristine[di].copy(deep=True), context=ctx(), **o))
+            do_call(step, lambda fi=fi, di=di, o=o: formulas[fi].get_model_matrix(frames[di], context=ctx(nrows[di]), **o), lambda fi=fi, di=di, o=o: Formula(fstrs[fi]).get_model_matrix(pristine[di].copy(deep=True), context=fresh_ctx(nrows[di]), **o))
         elif op == "sweep":
             # the same formula object against every frame in turn (frames may disagree about a column's kind)
             fi, o = step[1] % len(formulas), opts_of(step[2])
             for di in range(len(frames)):
-                do_call(step, lambda fi=fi, di=di, o=o: formulas[fi].get_model_matrix(frames[di], context=ctx(), **o), lambda fi=fi, di=di, o=o: Formula(fstrs[fi]).get_model_matrix(pristine[di].copy(deep=True), context=ctx(), **o))
+                do_call(step, lambda fi=fi, di=di, o=o: formulas[fi].get_model_matrix(frames[di], context=ctx(nrows[di]), **o), lambda fi=fi, di=di, o=o: Formula(fstrs[fi]).get_model_matrix(pristine[di].copy(deep=True), context=fresh_ctx(nrows[di]), **o))
         elif op == "build-str":
             fi, di, o = step[1] % len(formulas), step[2] % len(frames), opts_of(step[3])
-            do_call(step, lambda fi=fi, di=di, o=o: model_matrix(fstrs[fi], frames[di], context=ctx(), **o), lambda fi=fi, di=di, o=o: model_matrix(fstrs[fi], pristine[di].copy(deep=True), context={"K": list(KNOTS)}, **o))
+            do_call(step, lambda fi=fi, di=di, o=o: model_matrix(fstrs[fi], frames[di], context=ctx(nrows[di]), **o), lambda fi=fi, di=di, o=o: model_matrix(fstrs[fi], pristine[di].copy(deep=True), context=fresh_ctx(nrows[di]), **o))
         elif op == "spec-new":
             fi, o = step[1] % len(formulas), opts_of(step[2])
+            if len(step) > 3 and step[3]:
+                o["materializer"] = "pandas"  # a hand-built spec already bound to a materializer
             specs.append({"spec": ModelSpec(formula=formulas[fi], **o), "fresh": (lambda fi=fi, o=o: ModelSpec(formula=Formula(fstrs[fi]), **o)), "born": k})
         elif op == "take-spec":
             if not calls:
@@ -159,7 +187,7 @@ def check_history(case) -> Outcome:
             di = step[2] % len(frames)
             if k - sp["born"] >= 2:
                 reuse_old = True
-            do_call(step, lambda sp=sp, di=di: sp["spec"].get_model_matrix(frames[di], context=ctx()), lambda sp=sp, di=di: sp["fresh"]().get_model_matrix(pristine[di].copy(deep=True), context=ctx()))
+            do_call(step, lambda sp=sp, di=di: sp["spec"].get_model_matrix(frames[di], context=ctx(nrows[di])), lambda sp=sp, di=di: sp["fresh"]().get_model_matrix(pristine[di].copy(deep=True), context=fresh_ctx(nrows[di])))
         elif op == "pickle":
             if not specs:
                 continue
@@ -177,11 +205,29 @@ def check_history(case) -> Outcome:
             sp = specs[step[1] % len(specs)]
             if sp["spec"].structure is None or not len(sp["spec"].formula):
                 continue
-            t0 = [list(sp["spec"].formula)[0]]
+            terms_ = list(sp["spec"].formula)
+            t0 = [terms_[(step[2] if len(step) > 2 else 0) % len(terms_)]]
             try:
                 specs.append({"spec": sp["spec"].subset(t0), "fresh": (lambda sp=sp, t0=t0: sp["fresh"]().subset(t0)), "born": k})
             except Exception:
                 continue
+        elif op == "mat-reuse":
+            # one materializer instance serves a formula first and then an existing spec
+            if not specs:
+                continue
+            from formulaic.materializers import PandasMaterializer
+
+            fi, sp, di = step[1] % len(formulas), specs[step[2] % len(specs)], step[3] % len(frames)
+
+            def run(fi=fi, sp=sp, di=di):
+                m = PandasMaterializer(frames[di], context=ctx(nrows[di]))
+                try:
+                    m.get_model_matrix(formulas[fi])
+                except Exception:
+                    pass
+                return m.get_model_matrix(sp["spec"])
+
+            do_call(step, run, lambda sp=sp, di=di: PandasMaterializer(pristine[di].copy(deep=True), context=fresh_ctx(nrows[di])).get_model_matrix(sp["fresh"]()))
         elif op == "repeat":
             if not calls:
                 continue
@@ -205,7 +251,8 @@ def gen_formula():
     def strat(draw):
         fc = draw(F.formulas(max_terms=3, max_factors=2))
         if draw(st.booleans()):
-            fc = {"intercept": fc["intercept"], "terms": F.normalize_terms(fc["terms"] + [[draw(st.sampled_from(STATEFUL_EXTRA))]])}
+            extra = [[f] for f in draw(st.lists(st.sampled_from(STATEFUL_EXTRA), min_size=1, max_size=2))]
+            fc = {"intercept": fc["intercept"], "terms": F.normalize_terms(fc["terms"] + extra)}
         return fc
 
     return strat()
@@ -216,18 +263,19 @@ def gen_history():
         st.tuples(st.just("build"), st.integers(0, 5), st.integers(0, 5), st.integers(0, 17)),
         st.tuples(st.just("build-str"), st.integers(0, 5), st.integers(0, 5), st.integers(0, 17)),
         st.tuples(st.just("sweep"), st.integers(0, 5), st.integers(0, 17)),
-        st.tuples(st.just("spec-new"), st.integers(0, 5), st.integers(0, 17)),
+        st.tuples(st.just("spec-new"), st.integers(0, 5), st.integers(0, 17), st.booleans()),
+        st.tuples(st.just("mat-reuse"), st.integers(0, 5), st.integers(0, 9), st.integers(0, 5)),
         st.tuples(st.just("take-spec"), st.integers(0, 9)),
         st.tuples(st.just("reuse"), st.integers(0, 9), st.integers(0, 5)),
         st.tuples(st.just("reuse"), st.integers(0, 9), st.integers(0, 5)),
         st.tuples(st.just("pickle"), st.integers(0, 9)),
         st.tuples(st.just("update"), st.integers(0, 9), st.integers(0, 2)),
-        st.tuples(st.just("subset"), st.integers(0, 9)),
+        st.tuples(st.just("subset"), st.integers(0, 9), st.integers(0, 5)),
         st.tuples(st.just("repeat"), st.integers(0, 9)),
     )
     return st.fixed_dictionaries(
         {
-            "frames": st.lists(F.frame(min_rows=3, max_rows=8, nulls=True, index_kinds=("default", "shuffled", "strings"), null_free=("z",)), min_size=2, max_size=3),
+            "frames": st.lists(F.frame(min_rows=3, max_rows=8, nulls=True, index_kinds=("default", "shuffled", "strings"), null_free=("z", F.ODD_NUM), odd_names=True), min_size=2, max_size=3),
             "formulas": st.lists(gen_formula(), min_size=2, max_size=3),
             "steps": st.lists(step, min_size=3, max_size=12),
             # the same column may be text in one frame and numeric in another
@@ -249,7 +297,7 @@ CAT3 = [
 def battery_case():
     return st.fixed_dictionaries(
         {
-            "frame": F.frame(min_rows=3, max_rows=10, nulls=True, index_kinds=("default", "strings"), null_free=("z",)),
+            "frame": F.frame(min_rows=3, max_rows=10, nulls=True, index_kinds=("default", "strings"), null_free=("z", F.ODD_NUM), odd_names=True),
             "formula": st.one_of(gen_formula(), gen_formula(), F.formulas(max_terms=3, max_factors=4, py=False, polyraw=False), st.sampled_from(CAT3)),
             "opts": st.integers(0, 17),
             "twosided": st.booleans(),
@@ -269,10 +317,10 @@ def run_battery_case(c):
         o["cluster_by"] = "numerical_factors"
     dropped = set()
     if c["twosided"]:
-        mm = model_matrix(f"z ~ {s}", df, drop_rows=dropped, context={"K": list(KNOTS)}, **o)
+        mm = model_matrix(f"z ~ {s}", df, drop_rows=dropped, context=fresh_ctx(len(df)), **o)
         parts = [mm.lhs, mm.rhs]
     else:
-        mm = model_matrix(s, df, drop_rows=dropped, context={"K": list(KNOTS)}, **o)
+        mm = model_matrix(s, df, drop_rows=dropped, context=fresh_ctx(len(df)), **o)
         parts = [mm]
     d = {"parts": [digest(p) for p in parts], "dropped": sorted(int(v) for v in dropped), "formula": [repr(p.model_spec.formula) for p in parts],
          "variables": [sorted(map(str, p.model_spec.variables)) for p in parts], "required": [sorted(map(str, p.model_spec.required_variables)) for p in parts]}
